@@ -491,6 +491,13 @@ class Key(CryptographicObject):
         Retrieve all of the relevant key wrapping data fields and return them
         as a dictionary.
         """
+        def has_value(fields):
+            # False, 0 and '' are values; only None (and an emptied nested
+            # dictionary) mean that a field is absent.
+            return any(
+                (v is not None) and (v != {}) for v in fields.values()
+            )
+
         key_wrapping_data = {}
         encryption_key_info = {
             'unique_identifier': self._kdw_eki_unique_identifier,
@@ -514,9 +521,9 @@ class Key(CryptographicObject):
                     self._kdw_eki_cp_initial_counter_value
             }
         }
-        if not any(encryption_key_info['cryptographic_parameters'].values()):
+        if not has_value(encryption_key_info['cryptographic_parameters']):
             encryption_key_info['cryptographic_parameters'] = {}
-        if not any(encryption_key_info.values()):
+        if not has_value(encryption_key_info):
             encryption_key_info = {}
 
         mac_sign_key_info = {
@@ -541,9 +548,9 @@ class Key(CryptographicObject):
                     self._kdw_mski_cp_initial_counter_value
             }
         }
-        if not any(mac_sign_key_info['cryptographic_parameters'].values()):
+        if not has_value(mac_sign_key_info['cryptographic_parameters']):
             mac_sign_key_info['cryptographic_parameters'] = {}
-        if not any(mac_sign_key_info.values()):
+        if not has_value(mac_sign_key_info):
             mac_sign_key_info = {}
 
         key_wrapping_data['wrapping_method'] = self._kdw_wrapping_method
@@ -552,7 +559,7 @@ class Key(CryptographicObject):
         key_wrapping_data['mac_signature'] = self._kdw_mac_signature
         key_wrapping_data['iv_counter_nonce'] = self._kdw_iv_counter_nonce
         key_wrapping_data['encoding_option'] = self._kdw_encoding_option
-        if not any(key_wrapping_data.values()):
+        if not has_value(key_wrapping_data):
             key_wrapping_data = {}
 
         return key_wrapping_data
